@@ -5,7 +5,6 @@
 From V.model Require Import Base RelLex RelParse RelAcc RelGrammar RelGrammarAll.
 From V.model Require Import RelEdit RelEditSpec RelEditTree RelLiveAll.
 From V.proofs Require Import BaseP RelEditP RelEditStP RelEditTreeP RelLexInvP RelLiveAllP RelLiveAllStepP.
-Set Default Timeout 60.
 
 Ltac andb_hyps :=
   repeat match goal with
